@@ -8,8 +8,8 @@ followed statement by statement: the cache is keyed by class only, the index
 is rebuilt when `len(sys.modules)` differs from the stamp (since 556b985 into a
 local dict that is then assigned to `xsi_cache` — sequentially the same state
 transition as the former clear-and-refill; the difference only shows in the
-interleaved model `Ctx/Conc.lean`), `local_names_match` removes unbuildable classes from the index while
-`find_type_by_fields` is iterating over it.
+interleaved model `Ctx/Conc.lean`), `local_names_match` removes unbuildable classes from the
+published index (`find_type_by_fields` iterates over snapshots since 7df03d4).
 -/
 import XsdataModel.Ctx.Universe
 import XsdataModel.Ctx.Serialize
@@ -110,34 +110,29 @@ def doLocalNamesMatch (U : Universe) (s : State) (names : List Str) (c : ClassId
 
 abbrev Choice := ClassId × (Nat × Str)
 
-/-- the inner `for clazz in types` of `find_type_by_fields`, over the *live* list
-stored under key `k` (a Python list iterator: position `i`, re-reading the list) -/
-def scanTypes (U : Universe) (names : List Str) (k : Str) :
-    Nat → Nat → State → List Choice → State × Except Err (List Choice)
-  | 0, _, s, acc => (s, .ok acc)
-  | fuel + 1, i, s, acc =>
-    match s.xsi.lookup k with
-    | none => (s, .ok acc)
-    | some l =>
-      match l[i]? with
-      | none => (s, .ok acc)
-      | some c =>
-        match doLocalNamesMatch U s names c with
-        | (s1, .error e) => (s1, .error e)
-        | (s1, .ok false) => scanTypes U names k fuel (i + 1) s1 acc
-        | (s1, .ok true) =>
-          -- get_field_diff(clazz): meta = self.cache[clazz]
-          match s1.cache.lookup c, U.get? c with
-          | some m, some d => scanTypes U names k fuel (i + 1) s1 (acc ++ [(c, (fieldDiff names m, d.name))])
-          | _, _ => (s1, .error .index)
+/-- the inner `for clazz in tuple(types)` of `find_type_by_fields` (since 7df03d4
+over a *snapshot* of the list, so that `local_names_match` removing a class from
+the live list does not disturb the iteration) -/
+def scanTypes (U : Universe) (names : List Str) :
+    List ClassId → State → List Choice → State × Except Err (List Choice)
+  | [], s, acc => (s, .ok acc)
+  | c :: rest, s, acc =>
+    match doLocalNamesMatch U s names c with
+    | (s1, .error e) => (s1, .error e)
+    | (s1, .ok false) => scanTypes U names rest s1 acc
+    | (s1, .ok true) =>
+      -- get_field_diff(clazz): meta = self.cache[clazz]
+      match s1.cache.lookup c, U.get? c with
+      | some m, some d => scanTypes U names rest s1 (acc ++ [(c, (fieldDiff names m, d.name))])
+      | _, _ => (s1, .error .index)
 
-/-- the outer `for types in self.xsi_cache.values()` -/
+/-- the outer `for types in self.xsi_cache.values()`; the snapshot of a list is
+taken when the loop reaches it -/
 def scanKeys (U : Universe) (names : List Str) :
     List Str → State → List Choice → State × Except Err (List Choice)
   | [], s, acc => (s, .ok acc)
   | k :: ks, s, acc =>
-    let n := ((s.xsi.lookup k).getD []).length
-    match scanTypes U names k n 0 s acc with
+    match scanTypes U names ((s.xsi.lookup k).getD []) s acc with
     | (s1, .error e) => (s1, .error e)
     | (s1, .ok acc1) => scanKeys U names ks s1 acc1
 
